@@ -421,6 +421,14 @@ pub fn procmsg_stream(seed: u64, cases: usize, ex: &mut ChildExec) -> Sink {
             exp_pres.push((cid, if have { 0 } else { 1 }));
             base.blockPresences.push(BlockPresence { cid: cid.to_bytes(), type_pb: if have { BlockPresenceType::Have } else { BlockPresenceType::DontHave } });
         }
+        if !exp_pres.is_empty() && rng.chance(1, 3) {
+            // the same CID announced twice in one message with contradicting answers: the later one counts
+            let (cid, t) = exp_pres[rng.below(exp_pres.len())];
+            let t2 = 1 - t;
+            exp_pres.push((cid, t2));
+            base.blockPresences.push(BlockPresence { cid: cid.to_bytes(), type_pb: if t2 == 0 { BlockPresenceType::Have } else { BlockPresenceType::DontHave } });
+            sink.count("procmsg.contradicting-presences");
+        }
         if rng.chance(1, 2) {
             base.wantlist = Some(beetswap::verif::ProtoWantlist { entries: (0..rng.below(3)).map(|_| gen_entry(&mut rng)).collect(), full: rng.chance(1, 2) });
         }
